@@ -209,8 +209,19 @@ var (
 	statInjectedGen int64 // injected inside a generated-file function (Execute)
 	statSeamHit     [NumSeams]int64
 	tpoolHeld       [MaxTasks + 1]int32
-	switchSig       uint64 // signature over (site, from, to) of context switches only
+	switchSig       uint64          // signature over (site, from, to) of context switches only
+	tlabel          [MaxTasks]int32 // what kind of operation each task is in (harness-defined, < 8)
+	overlap         [8][8]int64     // context switches by (label of the task left, label of the task entered)
 )
+
+// SetLabel tells the simulator what kind of operation the calling task is executing.
+//
+//go:norace
+func SetLabel(l int) {
+	if mode == ModeSim {
+		tlabel[turn] = int32(l & 7)
+	}
+}
 
 // rng / tape
 var (
@@ -352,6 +363,7 @@ type Stats struct {
 	MapNonAsc, MapCalls, Injected, InjectedInExec int64
 	Abort, AbortWho                               int
 	SeamHit                                       [NumSeams]int64
+	Overlap                                       [8][8]int64
 }
 
 // SetMode switches between ModeOff and ModeSolo (ModeSim is entered by BeginRun).
@@ -377,6 +389,14 @@ func ResetRunStats() {
 		statSeamHit[i] = 0
 	}
 	abort, abortWho = 0, 0
+	for i := 0; i < 8; i++ {
+		for j := 0; j < 8; j++ {
+			overlap[i][j] = 0
+		}
+	}
+	for i := 0; i < MaxTasks; i++ {
+		tlabel[i] = 0
+	}
 	for i := 0; i <= MaxTasks; i++ {
 		tsteps[i], tcleanup[i], tinparse[i], tinject[i], tpoolHeld[i] = 0, 0, 0, 0, 0
 	}
@@ -461,6 +481,11 @@ func snapshot() Stats {
 	for i := 0; i < NumSeams; i++ {
 		s.SeamHit[i] = statSeamHit[i]
 	}
+	for i := 0; i < 8; i++ {
+		for j := 0; j < 8; j++ {
+			s.Overlap[i][j] = overlap[i][j]
+		}
+	}
 	return s
 }
 
@@ -531,6 +556,7 @@ func handTo(site uint32, me, to int) {
 		return
 	}
 	switches++
+	overlap[tlabel[me]][tlabel[to]]++
 	trace(EvSwitch, me, to, int(site))
 	v := uint64(site)<<16 | uint64(me)<<8 | uint64(to)
 	mix(v)
